@@ -758,7 +758,20 @@ class HTTP2ConnectionByteStream:
         if not self._closed:
             self._closed = True
             kwargs = {"stream_id": self._stream_id}
-            with Trace("response_closed", logger, self._request, kwargs):
-                self._connection._response_closed(
-                    self._request, stream_id=self._stream_id
-                )
+            released = False
+            try:
+                with Trace("response_closed", logger, self._request, kwargs):
+                    released = True
+                    self._connection._response_closed(
+                        self._request, stream_id=self._stream_id
+                    )
+            except BaseException:
+                if not released:
+                    # The trace callback failed, or was cancelled, before the
+                    # stream was given up. The connection may be shared with
+                    # other requests, which would wait for its slot for ever.
+                    with ShieldCancellation():
+                        self._connection._response_closed(
+                            self._request, stream_id=self._stream_id
+                        )
+                raise
